@@ -7,7 +7,7 @@ PROP = dict(
     family="c09", session_start=None, trivial=net_nontrivial, shrink=False, confirm_rerun=True, level="proof",
     n=dict(quick=24, thorough=160), timeout=1500,
     exhaustive=dict(quick=False, thorough=False),
-    rule='one record = one script: 1-4 submitter goroutines each handing 1-6 message lists (empty lists, 1-50 messages, graphics states of 1-12 kB) to the real ConnectToPanel while the scripted panel sends 0-200 events, both protocol modes, channel capacity 0 and 10; the panel records every byte it receives; non-trivial when bytes were written; distinct = distinct record text',
+    rule='one record = one script: 1-4 submitter goroutines each handing 1-6 message lists (empty lists, 1-50 messages, graphics states of 1-12 kB) to the real ConnectToPanel while the scripted panel sends 0-200 events, both protocol modes, channel capacity 0 and 10; loss/reconnect scripts: the first connection is lost (over-limit header, stalled frame, panel close; thorough: also reset) while its writer is blocked in conn.Write (the panel stopped reading, a 16 MB list is being written) or idle, the client reconnects by itself in the same or the other mode, and 1-2 goroutines hand 30+10 lists over on the new connection (what is handed over after the k-th onconnect must be on the wire of connection k); the panel records every byte it receives; non-trivial when bytes were written; distinct = distinct record text',
     trusted_base=["io.ReadFull, bufio.ReadString, strings.TrimSpace (ASCII blanks), net.Conn read deadlines, Go channels and proto.Marshal/Unmarshal enter the model by their contracts (opaque where possible)",
                   "scripted TCP panel on loopback (harness/netpanel.go): what it sent and when is taken from its own trace"],
     assumptions=["atomicity of the LTS labels (one label = one Go statement group)", "timing clauses hold with a tolerance of 400 ms; scripts keep >= 300 ms from every deadline (others are tagged tight-margin and judged by the monitor alone)"],
